@@ -3,11 +3,11 @@ package main
 // Stream `argv` (C10): the REAL config.NewFlagSet(&struct).Parse(argv) against
 //   - the Lean model of argParse (driver stream `argv`): error class + offending text, the effective
 //     command-line text of every flag (Lookup(name).ArgValue), Args();
-//   - the direct oracle: the documented grammar re-implemented independently below (specArgv) and the
-//     documented reading of textual values (oracleText), evaluated on what Parse really did:
+//   - the direct oracle: the documented grammar re-implemented independently below (argvSpec) and the
+//     documented reading of textual values (configOracleText), evaluated on what Parse really did:
 //     error / nil, Args(), ShowUsage(), ArgValue of every flag, the resulting field values, no panic.
 //
-// Shared with stream `config` (C09, config_prio.go): kinds, oracleText, fieldCanon, struct builder.
+// Shared with stream `config` (C09, config_prio.go): kinds, configOracleText, configFieldCanon, struct builder.
 
 import (
 	"encoding/base64"
@@ -23,133 +23,134 @@ import (
 	"github.com/whoisnian/glb/config"
 )
 
-func init() { streams["argv"] = runArgv }
+func init() { streams["argv"] = argvRun }
 
 // ---- kinds ------------------------------------------------------------------------------------
 
-type ckind int
+type configKind int
 
 const (
-	kBool ckind = iota
-	kInt
-	kInt64
-	kUint
-	kUint64
-	kString
-	kFloat64
-	kDuration
-	kBytes
-	kStruct
+	ckBool configKind = iota
+	ckInt
+	ckInt64
+	ckUint
+	ckUint64
+	ckString
+	ckFloat64
+	ckDuration
+	ckBytes
+	ckStruct
 )
 
-var kindNames = []string{"bool", "int", "int64", "uint", "uint64", "string", "float64", "duration", "bytes", "struct"}
+var configKindNames = []string{"bool", "int", "int64", "uint", "uint64", "string", "float64", "duration", "bytes", "struct"}
 
-var kindTypes = []reflect.Type{
+var configKindTypes = []reflect.Type{
 	reflect.TypeOf(false), reflect.TypeOf(int(0)), reflect.TypeOf(int64(0)), reflect.TypeOf(uint(0)),
 	reflect.TypeOf(uint64(0)), reflect.TypeOf(""), reflect.TypeOf(float64(0)), reflect.TypeOf(time.Duration(0)),
 	reflect.TypeOf([]byte(nil)),
 }
 
-func canonFloat(f float64) string {
+func configCanonFloat(f float64) string {
 	if math.IsNaN(f) {
 		return "nan"
 	}
 	return fmt.Sprintf("%016x", math.Float64bits(f))
 }
 
-// oracleText is the documented reading of a textual value: the empty text is the type's zero value,
-// anything else goes through the standard parser of the type. Result: canonical rendering, ok.
-func oracleText(k ckind, s string) (string, bool) {
+// configOracleText is the documented reading of a textual value: the empty text is the type's zero value,
+// anything else goes through the standard parser of the type. Result: canonical rendering (the text
+// itself for strings, lowercase hex of the content for []byte, decimal nanoseconds for Duration), ok.
+func configOracleText(k configKind, s string) (string, bool) {
 	switch k {
-	case kBool:
+	case ckBool:
 		if s == "" {
 			return "false", true
 		}
 		b, err := strconv.ParseBool(s)
 		return strconv.FormatBool(b), err == nil
-	case kInt:
+	case ckInt:
 		if s == "" {
 			return "0", true
 		}
 		v, err := strconv.ParseInt(s, 0, strconv.IntSize)
 		return strconv.FormatInt(v, 10), err == nil
-	case kInt64:
+	case ckInt64:
 		if s == "" {
 			return "0", true
 		}
 		v, err := strconv.ParseInt(s, 0, 64)
 		return strconv.FormatInt(v, 10), err == nil
-	case kUint:
+	case ckUint:
 		if s == "" {
 			return "0", true
 		}
 		v, err := strconv.ParseUint(s, 0, strconv.IntSize)
 		return strconv.FormatUint(v, 10), err == nil
-	case kUint64:
+	case ckUint64:
 		if s == "" {
 			return "0", true
 		}
 		v, err := strconv.ParseUint(s, 0, 64)
 		return strconv.FormatUint(v, 10), err == nil
-	case kString:
-		return "s" + hex.EncodeToString([]byte(s)), true
-	case kFloat64:
+	case ckString:
+		return s, true
+	case ckFloat64:
 		if s == "" {
-			return canonFloat(0), true
+			return configCanonFloat(0), true
 		}
 		v, err := strconv.ParseFloat(s, 64)
-		return canonFloat(v), err == nil
-	case kDuration:
+		return configCanonFloat(v), err == nil
+	case ckDuration:
 		if s == "" {
 			return "0", true
 		}
 		v, err := time.ParseDuration(s)
 		return strconv.FormatInt(int64(v), 10), err == nil
-	case kBytes:
+	case ckBytes:
 		if s == "" {
-			return "y", true
+			return "", true
 		}
 		v, err := base64.StdEncoding.DecodeString(s)
-		return "y" + hex.EncodeToString(v), err == nil
+		return hex.EncodeToString(v), err == nil
 	}
 	return "", false
 }
 
-// fieldCanon renders a struct field in the same canonical form as oracleText.
-func fieldCanon(v reflect.Value, k ckind) string {
+// configFieldCanon renders a struct field in the same canonical form as configOracleText.
+func configFieldCanon(v reflect.Value, k configKind) string {
 	switch k {
-	case kBool:
+	case ckBool:
 		return strconv.FormatBool(v.Bool())
-	case kInt, kInt64, kDuration:
+	case ckInt, ckInt64, ckDuration:
 		return strconv.FormatInt(v.Int(), 10)
-	case kUint, kUint64:
+	case ckUint, ckUint64:
 		return strconv.FormatUint(v.Uint(), 10)
-	case kString:
-		return "s" + hex.EncodeToString([]byte(v.String()))
-	case kFloat64:
-		return canonFloat(v.Float())
-	case kBytes:
-		return "y" + hex.EncodeToString(v.Bytes())
+	case ckString:
+		return v.String()
+	case ckFloat64:
+		return configCanonFloat(v.Float())
+	case ckBytes:
+		return hex.EncodeToString(v.Bytes())
 	}
 	return "?"
 }
 
 // ---- the harness's own description of a flag set --------------------------------------------------
 
-type flagInfo struct {
+type configFlagInfo struct {
 	Name  string
-	Kind  ckind
+	Kind  configKind
 	Def   string // default text of the tag
 	Index []int  // reflect field index path; nil for the built-in flags help / config
 }
 
-func (fi flagInfo) isBool() bool { return fi.Kind == kBool }
+func (fi configFlagInfo) isBool() bool { return fi.Kind == ckBool }
 
-func builtinFlags() []flagInfo {
-	return []flagInfo{{Name: "help", Kind: kBool}, {Name: "config", Kind: kString}}
+func configBuiltinFlags() []configFlagInfo {
+	return []configFlagInfo{{Name: "help", Kind: ckBool}, {Name: "config", Kind: ckString}}
 }
 
-func tableEnc(fl []flagInfo) string {
+func argvTableEnc(fl []configFlagInfo) string {
 	if len(fl) == 0 {
 		return "-"
 	}
@@ -185,37 +186,37 @@ type argvCfg struct {
 	NoTag int
 }
 
-func argvCfgFlags() []flagInfo {
-	return append(builtinFlags(),
-		flagInfo{"b", kBool, "false", []int{0}},
-		flagInfo{"verbose", kBool, "true", []int{1}},
-		flagInfo{"n", kInt, "7", []int{2}},
-		flagInfo{"i64", kInt64, "-5", []int{3}},
-		flagInfo{"u", kUint, "3", []int{4}},
-		flagInfo{"u64", kUint64, "18446744073709551615", []int{5}},
-		flagInfo{"s", kString, "dflt", []int{6}},
-		flagInfo{"f", kFloat64, "1.5", []int{7}},
-		flagInfo{"d", kDuration, "1s", []int{8}},
-		flagInfo{"y", kBytes, "aGk=", []int{9}},
-		flagInfo{"x", kString, "", []int{10}},
-		flagInfo{"long-name", kString, "", []int{11}},
-		flagInfo{"nx", kInt, "3", []int{12, 0}},
-		flagInfo{"nb", kBool, "", []int{12, 1}},
-		flagInfo{"notag", kInt, "", []int{13}},
+func argvCfgFlags() []configFlagInfo {
+	return append(configBuiltinFlags(),
+		configFlagInfo{"b", ckBool, "false", []int{0}},
+		configFlagInfo{"verbose", ckBool, "true", []int{1}},
+		configFlagInfo{"n", ckInt, "7", []int{2}},
+		configFlagInfo{"i64", ckInt64, "-5", []int{3}},
+		configFlagInfo{"u", ckUint, "3", []int{4}},
+		configFlagInfo{"u64", ckUint64, "18446744073709551615", []int{5}},
+		configFlagInfo{"s", ckString, "dflt", []int{6}},
+		configFlagInfo{"f", ckFloat64, "1.5", []int{7}},
+		configFlagInfo{"d", ckDuration, "1s", []int{8}},
+		configFlagInfo{"y", ckBytes, "aGk=", []int{9}},
+		configFlagInfo{"x", ckString, "", []int{10}},
+		configFlagInfo{"long-name", ckString, "", []int{11}},
+		configFlagInfo{"nx", ckInt, "3", []int{12, 0}},
+		configFlagInfo{"nb", ckBool, "", []int{12, 1}},
+		configFlagInfo{"notag", ckInt, "", []int{13}},
 	)
 }
 
 // ---- direct oracle: the documented grammar, written independently of argParse ------------------------
 
-type specRes struct {
+type argvSpecRes struct {
 	Assigns [][2]string
 	Rest    []string
 	Class   string // "" | badSyntax | undefined | needsArg
 	Arg     string // offending token / name
 }
 
-func specArgv(isBool map[string]bool, argv []string) specRes {
-	var res specRes
+func argvSpec(isBool map[string]bool, argv []string) argvSpecRes {
+	var res argvSpecRes
 	i := 0
 	for i < len(argv) {
 		tok := argv[i]
@@ -228,7 +229,7 @@ func specArgv(isBool map[string]bool, argv []string) specRes {
 		}
 		body := strings.TrimPrefix(strings.TrimPrefix(tok, "-"), "-") // one or two dashes
 		if body == "" || body[0] == '-' || body[0] == '=' {
-			return specRes{Class: "badSyntax", Arg: tok}
+			return argvSpecRes{Class: "badSyntax", Arg: tok}
 		}
 		name, val, has := body, "", false
 		if k := strings.IndexByte(body[1:], '='); k >= 0 { // first '=' after the first byte of the name
@@ -236,7 +237,7 @@ func specArgv(isBool map[string]bool, argv []string) specRes {
 		}
 		b, defined := isBool[name]
 		if !defined {
-			return specRes{Class: "undefined", Arg: name}
+			return argvSpecRes{Class: "undefined", Arg: name}
 		}
 		i++
 		if !has {
@@ -247,7 +248,7 @@ func specArgv(isBool map[string]bool, argv []string) specRes {
 				val = argv[i]
 				i++
 			default:
-				return specRes{Class: "needsArg", Arg: name}
+				return argvSpecRes{Class: "needsArg", Arg: name}
 			}
 		}
 		res.Assigns = append(res.Assigns, [2]string{name, val})
@@ -256,7 +257,7 @@ func specArgv(isBool map[string]bool, argv []string) specRes {
 	return res
 }
 
-func lastAssign(as [][2]string, name string) (string, bool) {
+func argvLastAssign(as [][2]string, name string) (string, bool) {
 	for i := len(as) - 1; i >= 0; i-- {
 		if as[i][0] == name {
 			return as[i][1], true
@@ -265,19 +266,19 @@ func lastAssign(as [][2]string, name string) (string, bool) {
 	return "", false
 }
 
-var argErrPrefixes = [][2]string{
+var argvErrPrefixes = [][2]string{
 	{"config: bad flag syntax: ", "badSyntax"},
 	{"config: flag provided but not defined: ", "undefined"},
 	{"config: flag needs an argument: ", "needsArg"},
 }
 
-// classifyParseErr maps the error of Parse to the enum of the model (+ the text after the prefix).
-func classifyParseErr(err error) (class, arg string) {
+// configClassifyParseErr maps the error of Parse to the enum of the model (+ the text after the prefix).
+func configClassifyParseErr(err error) (class, arg string) {
 	if err == nil {
 		return "", ""
 	}
 	msg := err.Error()
-	for _, p := range argErrPrefixes {
+	for _, p := range argvErrPrefixes {
 		if strings.HasPrefix(msg, p[0]) {
 			return p[1], msg[len(p[0]):]
 		}
@@ -299,8 +300,8 @@ type argvObs struct {
 	Fields   []string // canonical field values (struct flags only, "" for built-ins)
 }
 
-// runParse drives the real code on a fresh struct of the given type.
-func runParse(structType reflect.Type, flags []flagInfo, argv []string) (obs argvObs, newErr error) {
+// argvRunParse drives the real code on a fresh struct of the given type.
+func argvRunParse(structType reflect.Type, flags []configFlagInfo, argv []string) (obs argvObs, newErr error) {
 	ptr := reflect.New(structType)
 	fs, err := config.NewFlagSet(ptr.Interface())
 	if err != nil {
@@ -318,7 +319,7 @@ func runParse(structType reflect.Type, flags []flagInfo, argv []string) (obs arg
 		obs.Line = "panic:" + obs.Panic
 		return obs, nil
 	}
-	obs.ErrClass, obs.ErrArg = classifyParseErr(obs.Err)
+	obs.ErrClass, obs.ErrArg = configClassifyParseErr(obs.Err)
 	obs.Args = fs.Args()
 	obs.Usage = fs.ShowUsage()
 	var set []string
@@ -332,7 +333,7 @@ func runParse(structType reflect.Type, flags []flagInfo, argv []string) (obs arg
 			set = append(set, hxs(fi.Name)+"="+hxs(*av))
 		}
 		if fi.Index != nil {
-			obs.Fields = append(obs.Fields, fieldCanon(ptr.Elem().FieldByIndex(fi.Index), fi.Kind))
+			obs.Fields = append(obs.Fields, configFieldCanon(ptr.Elem().FieldByIndex(fi.Index), fi.Kind))
 		} else {
 			obs.Fields = append(obs.Fields, "")
 		}
@@ -351,7 +352,7 @@ func runParse(structType reflect.Type, flags []flagInfo, argv []string) (obs arg
 }
 
 // argvOracle evaluates the property statement on what the real Parse did. "" = holds.
-func argvOracle(flags []flagInfo, argv []string, obs argvObs) (kind, detail string) {
+func argvOracle(flags []configFlagInfo, argv []string, obs argvObs) (kind, detail string) {
 	if obs.Panic != "" {
 		return "panic", "Parse panicked: " + obs.Panic
 	}
@@ -359,7 +360,7 @@ func argvOracle(flags []flagInfo, argv []string, obs argvObs) (kind, detail stri
 	for _, fi := range flags {
 		isBool[fi.Name] = fi.isBool()
 	}
-	want := specArgv(isBool, argv)
+	want := argvSpec(isBool, argv)
 	if want.Class != "" { // the vector violates the grammar: an error of that class naming the culprit
 		if obs.ErrClass != want.Class || obs.ErrArg != want.Arg {
 			return "grammar-error", fmt.Sprintf("grammar says %s(%q), Parse returned %v", want.Class, want.Arg, obs.Err)
@@ -379,7 +380,7 @@ func argvOracle(flags []flagInfo, argv []string, obs argvObs) (kind, detail stri
 		}
 	}
 	for i, fi := range flags {
-		v, ok := lastAssign(want.Assigns, fi.Name)
+		v, ok := argvLastAssign(want.Assigns, fi.Name)
 		got := obs.ArgVals[i]
 		if ok != (got != nil) || (ok && *got != v) {
 			g := "nil"
@@ -390,17 +391,17 @@ func argvOracle(flags []flagInfo, argv []string, obs argvObs) (kind, detail stri
 		}
 	}
 	// typed half: the effective text must be readable, else an error; on success the fields hold it
-	if cp, ok := lastAssign(want.Assigns, "config"); ok && cp != "" {
+	if cp, ok := argvLastAssign(want.Assigns, "config"); ok && cp != "" {
 		if obs.Err == nil {
 			return "config-path", fmt.Sprintf("-config %q names no readable file but Parse returned nil", cp)
 		}
 		return "", ""
 	}
 	for _, fi := range flags {
-		if v, ok := lastAssign(want.Assigns, fi.Name); ok {
-			if _, good := oracleText(fi.Kind, v); !good {
+		if v, ok := argvLastAssign(want.Assigns, fi.Name); ok {
+			if _, good := configOracleText(fi.Kind, v); !good {
 				if obs.Err == nil {
-					return "unparsable-accepted", fmt.Sprintf("flag %q: effective text %q is not a %s but Parse returned nil", fi.Name, v, kindNames[fi.Kind])
+					return "unparsable-accepted", fmt.Sprintf("flag %q: effective text %q is not a %s but Parse returned nil", fi.Name, v, configKindNames[fi.Kind])
 				}
 				return "", ""
 			}
@@ -410,10 +411,10 @@ func argvOracle(flags []flagInfo, argv []string, obs argvObs) (kind, detail stri
 		return "spurious-error", fmt.Sprintf("every effective value is readable but Parse returned %v", obs.Err)
 	}
 	for i, fi := range flags {
-		text, assigned := lastAssign(want.Assigns, fi.Name)
+		text, assigned := argvLastAssign(want.Assigns, fi.Name)
 		if fi.Index == nil {
 			if fi.Name == "help" {
-				w, _ := oracleText(kBool, text)
+				w, _ := configOracleText(ckBool, text)
 				if strconv.FormatBool(obs.Usage) != w {
 					return "show-usage", fmt.Sprintf("ShowUsage() = %v, effective text %q (present=%v)", obs.Usage, text, assigned)
 				}
@@ -423,7 +424,7 @@ func argvOracle(flags []flagInfo, argv []string, obs argvObs) (kind, detail stri
 		if !assigned {
 			text = fi.Def
 		}
-		w, _ := oracleText(fi.Kind, text)
+		w, _ := configOracleText(fi.Kind, text)
 		if obs.Fields[i] != w {
 			return "field-value", fmt.Sprintf("field of flag %q = %s, want %s (text %q, from command line=%v)", fi.Name, obs.Fields[i], w, text, assigned)
 		}
@@ -437,8 +438,8 @@ type argvReplay struct {
 	Text  []string `json:"argv_quoted"`
 }
 
-func mkArgvReplay(flags []flagInfo, argv []string) argvReplay {
-	r := argvReplay{Table: tableEnc(flags)}
+func argvMkReplay(flags []configFlagInfo, argv []string) argvReplay {
+	r := argvReplay{Table: argvTableEnc(flags)}
 	for _, a := range argv {
 		r.Argv = append(r.Argv, hxs(a))
 		r.Text = append(r.Text, strconv.Quote(a))
@@ -460,53 +461,53 @@ var argvAlphabet = []string{
 	"5", "v", "true", "-5", "a=b",
 }
 
-var nearMisses = []string{"-", "--", "---x", "-=", "-x=", "--=v", "---", "----", "-=x", "--=", "--==", "-x==", "- ", "-\x00", "--\xff", "-\xc3", "--x=", "=x", "-x-", "--x-=-"}
+var argvNearMisses = []string{"-", "--", "---x", "-=", "-x=", "--=v", "---", "----", "-=x", "--=", "--==", "-x==", "- ", "-\x00", "--\xff", "-\xc3", "--x=", "=x", "-x-", "--x-=-"}
 
-func validText(r *Rng, k ckind) string {
+func configValidText(r *Rng, k configKind) string {
 	switch k {
-	case kBool:
+	case ckBool:
 		return Pick(r, []string{"true", "false", "1", "0", "T", "F", "TRUE", "False", ""})
-	case kInt, kInt64:
+	case ckInt, ckInt64:
 		return Pick(r, []string{"0", "5", "-5", "+7", "0x10", "0b11", "0o17", "1_000", "9223372036854775807", "-9223372036854775808", ""})
-	case kUint, kUint64:
+	case ckUint, ckUint64:
 		return Pick(r, []string{"0", "5", "0x10", "18446744073709551615", "017", ""})
-	case kString:
+	case ckString:
 		return Pick(r, []string{"", "a", "a=b", "-b", "--", "-", "=", "x y", "\x00", "\xff\xfe", "-n=3", "true"})
-	case kFloat64:
+	case ckFloat64:
 		return Pick(r, []string{"0", "1.5", "-2e10", "inf", "-Inf", "nan", "0x1p-2", "1e308", "4.9e-324", ""})
-	case kDuration:
+	case ckDuration:
 		return Pick(r, []string{"0", "1s", "-1.5h", "2h45m", "1ns", "2562047h47m16.854775807s", "1us", ""})
-	case kBytes:
+	case ckBytes:
 		return Pick(r, []string{"", "aGk=", "AA==", "d2hvaXNuaWFu", "/+8="})
 	}
 	return ""
 }
 
-func invalidText(r *Rng, k ckind) string {
+func configInvalidText(r *Rng, k configKind) string {
 	switch k {
-	case kBool:
+	case ckBool:
 		return Pick(r, []string{"maybe", "yes", "2", "-b", " true", "tru"})
-	case kInt, kInt64:
+	case ckInt, ckInt64:
 		return Pick(r, []string{"x", "1.5", "9223372036854775808", "--", "0x", "1e3", " 1", "-"})
-	case kUint, kUint64:
+	case ckUint, ckUint64:
 		return Pick(r, []string{"-1", "x", "18446744073709551616", "1.0", "-"})
-	case kFloat64:
+	case ckFloat64:
 		return Pick(r, []string{"x", "1e", "--", "1e400", "0x1", "1,5"})
-	case kDuration:
+	case ckDuration:
 		return Pick(r, []string{"1", "s", "1x", "-", "1h1", "9999999h"})
-	case kBytes:
+	case ckBytes:
 		return Pick(r, []string{"a", "aGk", "!!!!", "aGk=\n=", "-b"})
 	}
 	return "\xff" // strings accept everything
 }
 
-func genValue(r *Rng, k ckind) string {
+func argvGenValue(r *Rng, k configKind) string {
 	c := r.Intn(100)
 	switch {
 	case c < 55:
-		return validText(r, k)
+		return configValidText(r, k)
 	case c < 70:
-		return invalidText(r, k)
+		return configInvalidText(r, k)
 	case c < 80:
 		return Pick(r, []string{"-b", "--", "-", "-n=3", "--x", "-zz", "---", "-="}) // looks like a flag
 	case c < 88:
@@ -518,7 +519,7 @@ func genValue(r *Rng, k ckind) string {
 	}
 }
 
-func genArgv(r *Rng, flags []flagInfo, s *Stream) []string {
+func argvGen(r *Rng, flags []configFlagInfo, s *Stream) []string {
 	var argv []string
 	n := r.Intn(9)
 	if r.Chance(10) {
@@ -538,7 +539,7 @@ func genArgv(r *Rng, flags []flagInfo, s *Stream) []string {
 			if r.Chance(70) && len(flags) > 4 {
 				fi = flags[r.Intn(4)+r.Intn(len(flags)-3)] // favour repeats of few flags
 			}
-			v := genValue(r, fi.Kind)
+			v := argvGenValue(r, fi.Kind)
 			if fi.Name == "config" && !r.Chance(15) {
 				v = "" // mostly keep the configuration file out of the way
 			}
@@ -558,13 +559,13 @@ func genArgv(r *Rng, flags []flagInfo, s *Stream) []string {
 				s.Count("gen.name value")
 			}
 		case c < 62:
-			argv = append(argv, Pick(r, nearMisses))
+			argv = append(argv, Pick(r, argvNearMisses))
 			s.Count("gen.near-miss")
 		case c < 70: // unknown names, incl. prefixes / case variants of defined ones
 			fi := Pick(r, flags)
 			nm := Pick(r, []string{"zz", "B", "unknown", fi.Name + "2", strings.ToUpper(fi.Name), fi.Name[:len(fi.Name)-1] + "_", "é"})
 			if r.Bool() {
-				nm += "=" + genValue(r, kString)
+				nm += "=" + argvGenValue(r, ckString)
 			}
 			argv = append(argv, dashes()+nm)
 			s.Count("gen.unknown")
@@ -587,24 +588,24 @@ func genArgv(r *Rng, flags []flagInfo, s *Stream) []string {
 }
 
 // random flag tables built with reflect.StructOf (names the guard accepts and names it rejects)
-var dynNames = []string{"a", "b", "x", "n", "s", "ab", "a-b", "a.b", "1", "x1", "é", "A", "help2", "conf", "a b", "a_b", "x-", "ÿ", "B", "t", "u", "v", "w", "y", "z", "x2", "nn", "+", "0x"}
-var dynBadNames = []string{"-a", "a=b", "=", "--", "help", "config", "-", "x="}
+var argvDynNames = []string{"a", "b", "x", "n", "s", "ab", "a-b", "a.b", "1", "x1", "é", "A", "help2", "conf", "a b", "a_b", "x-", "ÿ", "B", "t", "u", "v", "w", "y", "z", "x2", "nn", "+", "0x"}
+var argvDynBadNames = []string{"-a", "a=b", "=", "--", "help", "config", "-", "x="}
 
-func genDynTable(r *Rng) (reflect.Type, []flagInfo, bool) {
+func argvGenDynTable(r *Rng) (reflect.Type, []configFlagInfo, bool) {
 	n := 1 + r.Intn(6)
-	flags := builtinFlags()
+	flags := configBuiltinFlags()
 	var fields []reflect.StructField
 	seen := map[string]bool{"help": true, "config": true}
 	valid := true
 	for i := 0; i < n; i++ {
-		name := Pick(r, dynNames)
+		name := Pick(r, argvDynNames)
 		if r.Chance(4) {
-			name = Pick(r, dynBadNames)
+			name = Pick(r, argvDynBadNames)
 		}
-		k := ckind(r.Intn(9))
+		k := configKind(r.Intn(9))
 		def := ""
 		if r.Chance(50) {
-			def = validText(r, k)
+			def = configValidText(r, k)
 		}
 		if strings.ContainsAny(def, ",|") || strings.ContainsAny(name, ",|") {
 			def = ""
@@ -614,7 +615,7 @@ func genDynTable(r *Rng) (reflect.Type, []flagInfo, bool) {
 			tag = "|" + name + "|" + def + "|usage"
 		}
 		fields = append(fields, reflect.StructField{
-			Name: "F" + strconv.Itoa(i), Type: kindTypes[k],
+			Name: "F" + strconv.Itoa(i), Type: configKindTypes[k],
 			Tag: reflect.StructTag(`flag:` + strconv.Quote(tag)),
 		})
 		// the guard of NewFlagSet, as documented
@@ -622,15 +623,15 @@ func genDynTable(r *Rng) (reflect.Type, []flagInfo, bool) {
 			valid = false
 		}
 		seen[name] = true
-		flags = append(flags, flagInfo{name, k, def, []int{i}})
+		flags = append(flags, configFlagInfo{name, k, def, []int{i}})
 	}
 	return reflect.StructOf(fields), flags, valid
 }
 
 // ---- the stream ---------------------------------------------------------------------------------------
 
-// cleanCfgEnv removes every CFG_* variable for the duration of the stream; returns the restorer.
-func cleanCfgEnv() func() {
+// configCleanEnv removes every CFG_* variable for the duration of the stream; returns the restorer.
+func configCleanEnv() func() {
 	var saved [][2]string
 	for _, kv := range os.Environ() {
 		if strings.HasPrefix(kv, "CFG_") {
@@ -646,11 +647,11 @@ func cleanCfgEnv() func() {
 	}
 }
 
-func runArgv(cfg Cfg) {
+func argvRun(cfg Cfg) {
 	s := NewStream(cfg.Out, "argv")
 	defer s.Close()
 	s.Rule = "argument vectors for the real NewFlagSet(&struct).Parse: exhaustive over a 34-token alphabet (quick: <=3 tokens, thorough: <=4) on a fixed struct with every flag kind, plus random vectors (well-formed groups, near-misses, values that look like flags, bool+stray value, repeats, unknown names, '=' in values, random bytes) on the fixed struct and on random reflect.StructOf flag tables; non-trivial = at least one flag group consumed or a grammar error raised (distinct by canonical outcome line)"
-	restore := cleanCfgEnv()
+	restore := configCleanEnv()
 	defer restore()
 	// relative -config values must not hit files of the work directory: run in an empty directory
 	if wd, err := os.Getwd(); err == nil {
@@ -688,10 +689,10 @@ func runArgv(cfg Cfg) {
 		}
 	}
 
-	one := func(structType reflect.Type, flags []flagInfo, argv []string, tableRef string) {
-		obs, newErr := runParse(structType, flags, argv)
+	one := func(structType reflect.Type, flags []configFlagInfo, argv []string, tableRef string) {
+		obs, newErr := argvRunParse(structType, flags, argv)
 		if newErr != nil {
-			s.Violate("newflagset", "NewFlagSet failed on a valid table: "+newErr.Error(), mkArgvReplay(flags, argv))
+			s.Violate("newflagset", "NewFlagSet failed on a valid table: "+newErr.Error(), argvMkReplay(flags, argv))
 			return
 		}
 		toks := make([]string, len(argv))
@@ -708,19 +709,19 @@ func runArgv(cfg Cfg) {
 			min := argv
 			if len(s.Violations) < 3 {
 				min = ddmin(argv, func(a []string) bool {
-					o, e := runParse(structType, flags, a)
+					o, e := argvRunParse(structType, flags, a)
 					if e != nil {
 						return false
 					}
 					k, _ := argvOracle(flags, a, o)
 					return k != ""
 				})
-				o, _ := runParse(structType, flags, min)
+				o, _ := argvRunParse(structType, flags, min)
 				if k2, d2 := argvOracle(flags, min, o); k2 != "" {
 					kind, detail = k2, d2
 				}
 			}
-			s.Violate(kind, detail, mkArgvReplay(flags, min))
+			s.Violate(kind, detail, argvMkReplay(flags, min))
 		}
 		// statistics
 		cls := obs.ErrClass
@@ -739,7 +740,7 @@ func runArgv(cfg Cfg) {
 	}
 
 	// 1. exhaustive small domain on the fixed struct
-	s.Line("table "+tableEnc(fixedFlags), "ok")
+	s.Line("table "+argvTableEnc(fixedFlags), "ok")
 	maxLen := cfg.N(3, 4)
 	vec := make([]string, 0, maxLen)
 	var rec func(depth int)
@@ -762,10 +763,10 @@ func runArgv(cfg Cfg) {
 	nRand := cfg.N(30000, 300000)
 	for i := 0; i < nRand; i++ {
 		r := rng.Fork()
-		argv := genArgv(r, fixedFlags, s)
+		argv := argvGen(r, fixedFlags, s)
 		one(fixedType, fixedFlags, argv, "@")
 		if i < 3 {
-			s.Sample(mkArgvReplay(nil, argv).Text)
+			s.Sample(argvMkReplay(nil, argv).Text)
 		}
 	}
 
@@ -773,10 +774,10 @@ func runArgv(cfg Cfg) {
 	nTables := cfg.N(150, 1500)
 	for t := 0; t < nTables; t++ {
 		r := rng.Fork()
-		typ, flags, valid := genDynTable(r)
+		typ, flags, valid := argvGenDynTable(r)
 		_, err := config.NewFlagSet(reflect.New(typ).Interface())
 		if valid != (err == nil) {
-			s.Violate("name-guard", fmt.Sprintf("NewFlagSet error = %v, but the names are valid = %v", err, valid), mkArgvReplay(flags, nil))
+			s.Violate("name-guard", fmt.Sprintf("NewFlagSet error = %v, but the names are valid = %v", err, valid), argvMkReplay(flags, nil))
 			continue
 		}
 		if !valid {
@@ -784,10 +785,10 @@ func runArgv(cfg Cfg) {
 			continue
 		}
 		s.Count("table.accepted")
-		enc := tableEnc(flags)
+		enc := argvTableEnc(flags)
 		s.Line("table "+enc, "ok")
 		for i := 0; i < 60; i++ {
-			argv := genArgv(r, flags, s)
+			argv := argvGen(r, flags, s)
 			ref := "@"
 			if i == 0 {
 				ref = enc // exercise the inline form of the op as well
